@@ -273,25 +273,12 @@ func runC04(c *kit.Ctx) {
 	}
 	{
 		// sendRPCToRegionClient
-		var rpcP, rcP *ssa.Parameter
-		for _, pa := range s2rc.Params {
-			switch pa.Name() {
-			case "rpc":
-				rpcP = pa
-			case "rc":
-				rcP = pa
-			}
-		}
+		rpcP, rcP := paramOfType(s2rc, "/hrpc.Call", 0), paramOfType(s2rc, "/hrpc.RegionClient", 0)
 		if rpcP != nil && rcP != nil {
 			checkHandled(s2rc, rpcP, rcP, s2rc.Pos(), "single call")
 		}
 		// waitForCompletion: each receive from rpc.ResultChan()
-		var rcW *ssa.Parameter
-		for _, pa := range wfc.Params {
-			if pa.Name() == "rc" {
-				rcW = pa
-			}
-		}
+		rcW := paramOfType(wfc, "/hrpc.RegionClient", 0)
 		n := 0
 		kit.Instrs(wfc, func(in ssa.Instruction) {
 			sel, ok := in.(*ssa.Select)
@@ -334,15 +321,7 @@ func runC04(c *kit.Ctx) {
 	// ---- R4 ---------------------------------------------------------------
 	c.StartRule("R4", "reaction to a failed result", 2)
 	{
-		var regP, rcP *ssa.Parameter
-		for _, pa := range hre.Params {
-			switch pa.Name() {
-			case "reg":
-				regP = pa
-			case "rc":
-				rcP = pa
-			}
-		}
+		regP, rcP := paramOfType(hre, "/hrpc.RegionInfo", 0), paramOfType(hre, "/hrpc.RegionClient", 0)
 		nsre, se := p.Named("region", "NotServingRegionError"), p.Named("region", "ServerError")
 		okN, okS := false, false
 		for _, call := range kit.Calls(hre, hrpcRI+"MarkUnavailable") {
